@@ -90,7 +90,10 @@ class BaseElementLocator
 
     void resize(std::size_t new_size, std::byte* memory_begin) noexcept
     {
-        last_element_ = element_address(new_size, memory_begin);
+        if (new_size < element_addresses_.size())
+        {
+            last_element_ = element_address(new_size, memory_begin);
+        }
         element_addresses_.resize_from_capacity(new_size);
     }
 
